@@ -633,9 +633,6 @@ func (ls *LState) closeAllUpvalues() { // +inline-start
 } // +inline-end
 
 func (ls *LState) raiseError(level int, format string, args ...interface{}) {
-	if !ls.hasErrorFunc {
-		ls.closeAllUpvalues()
-	}
 	message := format
 	if len(args) > 0 {
 		message = fmt.Sprintf(format, args...)
@@ -1522,9 +1519,6 @@ func (ls *LState) Error(lv LValue, level int) {
 	if str, ok := lv.(LString); ok {
 		ls.raiseError(level, string(str))
 	} else {
-		if !ls.hasErrorFunc {
-			ls.closeAllUpvalues()
-		}
 		ls.Push(lv)
 		ls.Panic(ls)
 	}
@@ -1858,6 +1852,7 @@ func (ls *LState) PCall(nargs, nret int, errfunc *LFunction) (err error) {
 						}
 						ls.stack.SetSp(sp)
 						ls.currentFrame = ls.stack.Last()
+						ls.closeUpvalues(base)
 						ls.reg.SetTop(base)
 					}
 				}()
@@ -1868,6 +1863,7 @@ func (ls *LState) PCall(nargs, nret int, errfunc *LFunction) (err error) {
 			}
 			ls.stack.SetSp(sp)
 			ls.currentFrame = ls.stack.Last()
+			ls.closeUpvalues(base)
 			ls.reg.SetTop(base)
 		}
 		ls.stack.SetSp(sp)
